@@ -196,8 +196,8 @@ META = {
 
 
 # ------------------------------------------------------------------ C05.image: whole AKAI volumes / Roland performances with near-colliding names
-SAFE_AKAI = [0, 1, 2, 3, 4, 5, 6, 7, 8, 19, 20, 21]          # classes of nameimg.AKAI_NAMES that are their own export name (no sanitising involved)
-SAFE_ROLAND = [0, 1, 2, 3, 4, 5, 6, 7, 12, 22, 27]
+SAFE_AKAI = [0, 1, 2, 3, 4, 5, 6, 7, 8, 19, 20, 21, 22]          # classes of nameimg.AKAI_NAMES that are their own export name (no sanitising involved)
+SAFE_ROLAND = [0, 1, 2, 3, 4, 5, 6, 7, 12, 17, 22, 27]
 
 
 def h_image(fmt: int, n: int, i0: int, i1: int, i2: int, i3: int) -> int:
